@@ -263,6 +263,29 @@ impl Actor for ClusterActor {
     }
 }
 
+/// Verification hook: dial a peer explicitly (lets test clusters form without mDNS).
+#[cfg(sierradb_verif)]
+pub struct VerifDial {
+    pub addr: Multiaddr,
+    pub expected_peers: usize,
+}
+
+#[cfg(sierradb_verif)]
+impl Message<VerifDial> for ClusterActor {
+    type Reply = bool;
+
+    async fn handle(
+        &mut self,
+        msg: VerifDial,
+        _ctx: &mut Context<Self, Self::Reply>,
+    ) -> Self::Reply {
+        if self.swarm.connected_peers().count() >= msg.expected_peers {
+            return true;
+        }
+        self.swarm.dial(msg.addr).is_ok()
+    }
+}
+
 /// For testing purposes.
 pub struct ResetCluster {
     pub database: Database,
